@@ -188,9 +188,14 @@ where
     ```
     */
     pub fn seed(mut self, seed: u64) -> Self {
+        let n_chains = self.chains.len() as u64;
         for (i, chain) in self.chains.iter_mut().enumerate() {
             let chain_seed = seed.wrapping_add(i as u64).wrapping_add(1);
-            chain.rng = SmallRng::seed_from_u64(chain_seed)
+            chain.rng = SmallRng::seed_from_u64(chain_seed);
+            chain.proposal = chain
+                .proposal
+                .clone()
+                .set_seed(chain_seed.wrapping_add(n_chains));
         }
         self
     }
